@@ -63,6 +63,7 @@ type worker struct {
 	maxAllocN int
 	maxDesc   string
 	samples   map[string][]any // at most two per family
+	seen      map[uint64]struct{} // request bytes already run in the current shard (hashes)
 	ms0, ms1  runtime.MemStats
 }
 
@@ -98,6 +99,22 @@ func (w *worker) sample(fam string, v map[string]any) {
 		w.samples[fam] = append(w.samples[fam], v)
 		w.l.Sample(v)
 	}
+}
+
+// firstTime reports whether these request bytes are new in the current shard; repeated byte
+// strings (two edits or two letter sets that spell the same request) are run but not counted
+// as distinct inputs.
+func (w *worker) firstTime(req []byte) bool {
+	h := uint64(14695981039346656037)
+	for _, c := range req {
+		h = (h ^ uint64(c)) * 1099511628211
+	}
+	if _, dup := w.seen[h]; dup {
+		w.l.Add("duplicate_inputs_within_shard", 1)
+		return false
+	}
+	w.seen[h] = struct{}{}
+	return true
 }
 
 func (w *worker) ctxKind() string {
@@ -392,7 +409,7 @@ func (w *worker) runF1(line reqLine, h hset) {
 	res := w.exec(req)
 	l.Add("evaluations", 1)
 	l.Add("f1_cases", 1)
-	if len(h) > 0 || !line.T.Valid || !line.V.OK || !line.M.Token || line.M.M == "FOO" || line.M.M == "get" {
+	if w.firstTime(req) && (len(h) > 0 || !line.T.Valid || !line.V.OK || !line.M.Token || line.M.M == "FOO" || line.M.M == "get") {
 		l.Add("nontrivial", 1)
 	}
 	simple := true
@@ -505,7 +522,7 @@ func (w *worker) runF2(seedIdx int, buf *[]byte, es ...edit) {
 	res := w.exec(req)
 	l.Add("evaluations", 1)
 	l.Add("f2_cases", 1)
-	if len(es) > 0 {
+	if w.firstTime(req) && len(es) > 0 {
 		l.Add("nontrivial", 1)
 	}
 	first := w.judgeCommon(req, res, desc, judgeOpts{fam: "f2", exactlyOne: len(es) == 0, allocTrigger: fmt.Sprintf("f2:seed%d", seedIdx)})
